@@ -530,11 +530,15 @@ func drawSnap(t *rapid.T, noAlias bool) Case {
 		var kinds []string
 		if i < cut {
 			kinds = []string{"tree", "tree", "func", "func", "fn-box", "comp", "comp", "comp-in-tree", "gen", "gen", "use"}
+			if i == 0 && rapid.IntRange(0, 19).Draw(t, "exotic") == 0 {
+				kinds = []string{"exotic"}
+			}
 		} else {
 			kinds = []string{"use", "use", "use", "use", "use", "use", "gen", "gen", "gen", "final", "func", "comp", "tree"}
 		}
 		n := 1 + rapid.IntRange(0, 2).Draw(t, "segStmts")
 		var stmts []*gen.Node
+		var verbatim []string // statements written out by hand (values the shared generator has no node for)
 		var ks string
 		for j := 0; j < n; j++ {
 			k := rapid.SampledFrom(kinds).Draw(t, "segKind")
@@ -551,6 +555,13 @@ func drawSnap(t *rapid.T, noAlias bool) Case {
 				stmts = append(stmts, b.defFnBox()...)
 			case "gen":
 				stmts = append(stmts, g.Stmt(3)...)
+			case "exotic":
+				// values outside the property's list that a script can still put into a variable
+				name := g.FreshName()
+				g.Reserve(name)
+				raw := rapid.SampledFrom([]string{"this", "[this]", "[1,2].push", "{'k': [3].kh}", "ceil", "[abs, 1]", "{'f': toStr}", "[1,2].len", "{'a':1}.keys"}).Draw(t, "exoticValue")
+				verbatim = append(verbatim, name+" = "+raw)
+				stmts = append(stmts, gen.Set(g.FreshName(), gen.Int(int64(len(verbatim)))))
 			case "final":
 				stmts = append(stmts, g.FinalStmt(3))
 			default:
@@ -564,7 +575,11 @@ func drawSnap(t *rapid.T, noAlias bool) Case {
 			ks += k
 		}
 		c.Kinds = append(c.Kinds, ks)
-		c.Segs = append(c.Segs, printSeg(t, stmts, "noise"+strconv.Itoa(i)))
+		seg := printSeg(t, stmts, "noise"+strconv.Itoa(i))
+		for _, v := range verbatim {
+			seg = v + "; " + seg
+		}
+		c.Segs = append(c.Segs, seg)
 	}
 	return c
 }
